@@ -575,6 +575,37 @@ func (e *Enc) compileCallExpr(c *SpecCtx, x *Expr) CE {
 			return CE{T: "(chcap " + a.T + ")", Typ: tMath}
 		}
 		fail("%s: len of %s", c.what, a.Typ)
+	case "mapsframe": // mapsframe(m1, m2, ...): every map of m1's type other than the listed ones is as in old()
+		if len(x.Args) == 0 {
+			fail("%s: mapsframe needs a map", c.what)
+		}
+		var refs []Term
+		var mt *types.Map
+		for _, a := range x.Args {
+			ce := e.compile(c, a)
+			u, ok := ce.Typ.Underlying().(*types.Map)
+			if !ok {
+				fail("%s: mapsframe of non-map %s", c.what, ce.Typ)
+			}
+			if mt == nil {
+				mt = u
+			}
+			refs = append(refs, ce.T)
+		}
+		q := e.B.freshName("q.m")
+		var neq []Term
+		for _, r := range refs {
+			neq = append(neq, "(not (= "+q+" "+r+"))")
+		}
+		dom := e.get(c.st, e.mapKey(mt, "dom"), e.mapSort(mt, "dom"))
+		val := e.get(c.st, e.mapKey(mt, "val"), e.mapSort(mt, "val"))
+		dom0 := e.get(c.old, e.mapKey(mt, "dom"), e.mapSort(mt, "dom"))
+		val0 := e.get(c.old, e.mapKey(mt, "val"), e.mapSort(mt, "val"))
+		if dom == dom0 && val == val0 {
+			return CE{T: "true", Typ: tBool}
+		}
+		return CE{T: fmt.Sprintf("(forall ((%s Int)) (! (=> %s (and (= (select %s %s) (select %s %s)) (= (select %s %s) (select %s %s)))) :pattern ((select %s %s)) :pattern ((select %s %s))))",
+			q, and(neq...), dom, q, dom0, q, val, q, val0, q, dom, q, val, q), Typ: tBool}
 	case "min", "max":
 		argn(2)
 		a, b := e.compile(c, x.Args[0]), e.compile(c, x.Args[1])
@@ -676,6 +707,21 @@ func (e *Enc) compileCallExpr(c *SpecCtx, x *Expr) CE {
 		a := e.compile(c, x.Args[0])
 		e.B.declTop("box.Slice", "(declare-fun box.Slice (Int) Slice)")
 		return CE{T: "(box.Slice (ival " + a.T + "))", Typ: types.NewSlice(types.Typ[types.Byte])}
+	case "ref": // ref(p): identity of the object a pointer points to / of a map or channel (0 for nil)
+		argn(1)
+		a := e.compile(c, x.Args[0])
+		if a.Typ != nil {
+			switch a.Typ.Underlying().(type) {
+			case *types.Pointer:
+				if a.T == "" {
+					fail("%s: ref() of an interior pointer", c.what)
+				}
+				return CE{T: "(pref " + a.T + ")", Typ: tMath}
+			case *types.Map, *types.Chan:
+				return CE{T: a.T, Typ: tMath}
+			}
+		}
+		fail("%s: ref() of %s", c.what, a.Typ)
 	case "arr": // arr(s): identity of a slice's backing array (0 for nil)
 		argn(1)
 		a := e.compile(c, x.Args[0])
